@@ -14,6 +14,9 @@ attribute stored on the packet is, on every non-raising path,
 need (ii)/(iii).
  (iv) the total input length never steers parsing outside the end-of-string shortcut
       (no clamping of counts / no 'nothing left, so absent' tolerance).
+
+Round 4: values added to a container the packet holds (sequence.extend(...)) are flows too;
+iter_unpack is a lenient decoder; templates assembled from literal pieces are read per variant.
 """
 import ast
 
